@@ -165,8 +165,15 @@ type BatchResult struct {
 }
 
 // RunBatch runs one batch in this process.
+// Preparer is implemented by properties that must configure the process
+// (e.g. cap its address space) before anything runs.
+type Preparer interface{ Prepare() }
+
 func RunBatch(p Prop, tier string, verifSeed uint64, batch int, known *KnownFindings) *BatchResult {
 	initRapid()
+	if pr, ok := p.(Preparer); ok {
+		pr.Prepare()
+	}
 	seed := BatchSeed(verifSeed, p.ID(), batch)
 	_ = flag.Set("rapid.seed", strconv.FormatUint(seed, 10))
 	_ = flag.Set("rapid.checks", strconv.Itoa(p.ChecksPerBatch(tier)))
@@ -242,6 +249,15 @@ func RunBatch(p Prop, tier string, verifSeed uint64, batch int, known *KnownFind
 				}
 				return
 			}
+			if os.Getenv("VERIF_COLLECT") != "" {
+				// survey mode (development aid): record every distinct clause, keep searching
+				id := "collect:" + v.Clause
+				st.KnownHits[id]++
+				if _, ok := st.KnownSample[id]; !ok {
+					st.KnownSample[id] = v
+				}
+				return
+			}
 			if pin == "" {
 				pin = v.Clause
 			}
@@ -300,6 +316,9 @@ func Replay(path string) (*ReplayFile, *Violation, error) {
 	}
 	if rf.Scenario.Procs > 0 {
 		runtime.GOMAXPROCS(rf.Scenario.Procs)
+	}
+	if pr, ok := p.(Preparer); ok {
+		pr.Prepare()
 	}
 	st := NewStats()
 	v := p.Check(rf.Scenario, st, rf.Clause)
@@ -448,6 +467,16 @@ func RunProperty(cfg RunConfig) int {
 	}
 	sort.Strings(kfIDs)
 	for _, id := range kfIDs {
+		if strings.HasPrefix(id, "collect:") {
+			d := ""
+			if v, ok := total.KnownSample[id].(map[string]any); ok {
+				d = fmt.Sprint(v["detail"])
+			} else if v, ok := total.KnownSample[id].(*Violation); ok {
+				d = v.Detail
+			}
+			fmt.Printf("COLLECTED %s hits=%d sample: %s\n", id, total.KnownHits[id], d)
+			continue
+		}
 		e := known.ByID(id)
 		fmt.Printf("KNOWN-FINDING: property=%s %s [%s] hits=%d\n", cfg.Prop, e.What, id, total.KnownHits[id])
 	}
@@ -523,9 +552,21 @@ func runBatchChild(cfg RunConfig, job batchJob) *BatchResult {
 	if os.Getenv("VERIF_GOMAXPROCS") != "" {
 		env = "GOMAXPROCS=" + os.Getenv("VERIF_GOMAXPROCS")
 	}
-	out, code := runSelfEnv(cfg.Self, 45*time.Minute, []string{env}, args...)
+	inflight := filepath.Join(cfg.VerifDir, ".build", fmt.Sprintf("inflight.%d.%s.%d.%d", os.Getpid(), cfg.Prop, job.seed, job.batch))
+	_ = os.Remove(inflight)
+	defer os.Remove(inflight)
+	out, code := runSelfEnv(cfg.Self, 45*time.Minute, []string{env, "VERIF_INFLIGHT_FILE=" + inflight}, args...)
 	m := jsonLine.FindStringSubmatch(out)
 	if m == nil {
+		// the child died: if it had announced what it was about to run, that is a
+		// process-fatal outcome of that scenario
+		if b, err := os.ReadFile(inflight); err == nil && len(b) > 0 {
+			var sc Scenario
+			if json.Unmarshal(b, &sc) == nil {
+				sc.Prop = cfg.Prop
+				return &BatchResult{Prop: cfg.Prop, Batch: job.batch, Stats: NewStats(), Violation: &Violation{Property: cfg.Prop, Clause: "fatal", Detail: fmt.Sprintf("the process died (exit %d) while running this input: %s", code, fatalClass(out)), Scenario: &sc}}
+			}
+		}
 		return &BatchResult{Prop: cfg.Prop, Batch: job.batch, Stats: NewStats(), Harness: fmt.Sprintf("batch child exit %d without result: %s", code, lastLines(out, 8))}
 	}
 	var r BatchResult
@@ -635,4 +676,17 @@ func ReplayWithWatchdog(path string) (*ReplayFile, *Violation, error) {
 		}
 		return &rf, &Violation{Property: rf.Property, Clause: "no_termination", Detail: fmt.Sprintf("scenario still running after %v (library call does not return)", watchdogLimit("thorough")), Scenario: rf.Scenario}, nil
 	}
+}
+
+// fatalClass extracts the line that says why a Go process died.
+func fatalClass(out string) string {
+	for _, l := range strings.Split(out, "\n") {
+		if strings.HasPrefix(l, "fatal error:") || strings.HasPrefix(l, "runtime:") || strings.HasPrefix(l, "panic:") || strings.Contains(l, "signal:") || strings.Contains(l, "stack overflow") {
+			if len(l) > 200 {
+				l = l[:200]
+			}
+			return l
+		}
+	}
+	return lastLines(out, 2)
 }
